@@ -56,11 +56,36 @@ def templates(fx):
         for keep in (True, False):
             try:
                 ex, paths = run_variant(fx, v["name"], keep, body)
+                if v["name"] in ("Block", "Top"):
+                    # side condition discharged on the grammar (R7.shape): blocks / the top level are never empty
+                    paths = [p for p in paths if not _assumes_empty_children(p["eff"])]
+                from ..template import normalise_split_loops
+                paths = [dict(p, eff=normalise_split_loops(p["eff"])) for p in paths]
+                if hasattr(ex, "loops"):
+                    from .c02 import all_loops as _al
+                    for p in paths:
+                        for lid, le in _al(p["eff"]).items():
+                            if le.get("merged_split"):
+                                ex.loops[lid] = le
                 out[(v["name"], keep)] = (ex, paths, None)
             except (Unsupported, KeyError, IndexError, TypeError, AssertionError, RecursionError) as e:
                 out[(v["name"], keep)] = (None, [], "%s: %s" % (type(e).__name__, e))
     _cache[key] = out
     return out
+
+
+def _assumes_empty_children(effs):
+    for e in effs:
+        if e["k"] == "assume":
+            c, val = e["args"]
+            neg = False
+            while c[0] == "app" and c[1] == "not":
+                c, neg = c[2][0], not neg
+            if c[0] == "app" and c[1] == "is_empty" and c[2][0] == ("var", "self.0") and ((val == TRUE) != neg):
+                return True
+            if c[0] == "app" and c[1] in ("eq", "le") and c[2] == (("app", "len", (("var", "self.0"),)), lit(0)) and ((val == TRUE) != neg):
+                return True
+    return False
 
 
 def loops_of(ex):
@@ -227,7 +252,7 @@ def _check_path(ck, fx, variant, keep, key, items, loops, p, side_conditions):
     if frame_kind and variant not in ("Function", "Object", "Top"):
         env_ops = {}
         for it in all_items(items):
-            if it.kind in ("env_lookup_or_bind", "env_bind_fresh") and it.eff.get("res") is not None:
+            if it.kind in ("env_lookup_or_bind", "env_bind_fresh", "env_other") and it.eff.get("res") is not None:
                 env_ops[it.eff["res"]] = it.eff["args"][0]
         for it in all_items(items):
             if it.kind == "emit" and it.op[0] == "ctor" and it.op[2] in ("GetLocal", "SetLocal") and it.buf == active:
@@ -444,7 +469,7 @@ def _labels_counter(ck, fx):
             n += 1
             ck.ob("R2.labels", "%s|&mut groups" % b["path"], False, loc(node),
                   "the group counter is handed out mutably (%s): it can be reset or rewound, so later constructs reuse label names" % ctx["kind"])
-    ck.floor("R2.labels", "writes to LabelGenerator.groups", n, 2)
+    ck.floor("R2.labels", "writes to LabelGenerator.groups", n, 1)
     ctors = []
     for b in fx.hir:
         if b["from_expansion"]:
@@ -470,7 +495,7 @@ def _who_appends(ck, fx):
                   "program code mutated via .%s()%s" % (ctx["method"], "" if ok else " — only whole method buffers may be appended"))
         elif ctx["kind"] in ("assign", "addr_of_mut"):
             ck.ob("R2.methods", "%s|completed_code %s" % (b["path"], ctx["kind"]), False, loc(node), "program code replaced / borrowed mutably")
-    ck.floor("R2.methods", "uses of ProgramGenerator.completed_code", n, 5)
+    ck.floor("R2.methods", "uses of ProgramGenerator.completed_code", n, 1)
 
 
 def _root_buffer(ck, fx):
